@@ -179,7 +179,7 @@ SKS = [
     (dict(pre=[], effs=[7, 14], effcond=0, goal=[10], w_init="any"), [[]]),                                    # 12 two object assignments, possibly the same value
 ]
 
-_WIDE = {2: 1, 6: 1, 7: 1, 8: 1, 12: 2}  # skeleton index -> number of first-step splits of the length-2 shard
+_WIDE = {2: 1, 6: 1, 7: 2, 8: 1, 12: 2}  # skeleton index -> number of first-step splits of the length-2 shard
 _RES = [[1, 2, 0], [0, 0, 0], [3, 1, 1], [2, 2, 3]]
 
 
